@@ -1997,6 +1997,8 @@ impl DB {
         // While doing checks we ignore errors from `list_dir` since it may be transient and
         // subsequent, successful runs will remove the stale files also
         let mut files_to_delete: Vec<PathBuf> = vec![];
+        #[cfg(feature = "verif")]
+        let mut verif_listed: Vec<(&'static str, String)> = vec![];
 
         // Check WAL file directory for stale files
         if let Ok(wal_files) = filesystem_provider.list_dir(&file_name_handler.get_wal_dir()) {
@@ -2023,6 +2025,8 @@ impl DB {
                     }
                 }
 
+                #[cfg(feature = "verif")]
+                verif_listed.push(("wal", file.to_string_lossy().to_string()));
                 match FileNameHandler::get_file_type_from_name(file.as_path()) {
                     Ok(file_type) => {
                         if let ParsedFileType::WriteAheadLog(wal_number) = file_type {
@@ -2085,6 +2089,8 @@ impl DB {
                     }
                 }
 
+                #[cfg(feature = "verif")]
+                verif_listed.push(("data", file.to_string_lossy().to_string()));
                 match FileNameHandler::get_file_type_from_name(file.as_path()) {
                     Ok(file_type) => {
                         if let ParsedFileType::TableFile(table_number) = file_type {
@@ -2138,6 +2144,8 @@ impl DB {
                     }
                 }
 
+                #[cfg(feature = "verif")]
+                verif_listed.push(("main", file.to_string_lossy().to_string()));
                 match FileNameHandler::get_file_type_from_name(file.as_path()) {
                     Ok(file_type) => match file_type {
                         ParsedFileType::ManifestFile(manifest_file_num) => {
@@ -2184,6 +2192,26 @@ impl DB {
                 }
             }
         }
+
+        #[cfg(feature = "verif")]
+        crate::verif::event(
+            &file_name_handler.get_db_path().to_string_lossy(),
+            crate::verif::Event::ObsoletePass {
+                live: {
+                    let mut live: Vec<u64> = live_files.iter().copied().collect();
+                    live.sort_unstable();
+                    live
+                },
+                wal_number: db_fields_guard.version_set.get_curr_wal_number(),
+                prev_wal_number: db_fields_guard.version_set.maybe_prev_wal_number(),
+                manifest_number: db_fields_guard.version_set.get_manifest_file_number(),
+                listed: verif_listed,
+                deleted: files_to_delete
+                    .iter()
+                    .map(|path| path.to_string_lossy().to_string())
+                    .collect(),
+            },
+        );
 
         /*
         Unblock other threads while deleting files. All of the files being deleted have unique
